@@ -239,3 +239,77 @@ func VerifC07CrashDelete(h *verifh.H) {
 	hs.vCheckUnscoped(h, "after crash")
 	h.Observe("acked", h.Acked())
 }
+
+// VerifC07PagedAcrossDelete: a paged relationship query (scoped to the dataset,
+// scoped to both datasets, or unscoped) hands out a continuation; then the
+// dataset is deleted (and optionally re-created, garbage collected or the hub
+// restarted); following the continuation returns nothing that was written to
+// the deleted dataset — only what the surviving dataset still carries.
+func VerifC07PagedAcrossDelete(h *verifh.H) {
+	hs := vNewHistory(h, "a", "b")
+	g := hs.g
+	qa := &mVersion{ID: "ns0:q", Props: map[string]string{"ns0:v": "a"}, Refs: map[string][]string{"ns0:p1": {"ns0:e2", "ns0:e3"}}}
+	qb := &mVersion{ID: "ns0:q", Props: map[string]string{"ns0:v": "b"}, Refs: map[string][]string{"ns0:p1": {"ns0:e2"}}}
+	h.Assert(hs.dss["a"].StoreEntities([]*Entity{mkEntity(qa)}) == nil, "write a")
+	g.write("a", []*mVersion{qa})
+	if h.Choice("bHasQ", 2) == 1 {
+		h.Assert(hs.dss["b"].StoreEntities([]*Entity{mkEntity(qb)}) == nil, "write b")
+		g.write("b", []*mVersion{qb})
+	}
+	st := hs.hub.Store
+	scope := [][]string{{"a"}, {"a", "b"}, nil}[h.Choice("scope", 3)]
+	inverse := h.Choice("inverse", 2) == 1
+	start := "ns0:q"
+	if inverse {
+		start = "ns0:e2"
+	}
+	from, err := st.ToRelatedFrom([]string{start}, "*", inverse, scope, time.Now().UnixNano())
+	h.Assert(err == nil && len(from) > 0, "query start")
+	if err != nil || len(from) == 0 {
+		return
+	}
+	p1, err := st.GetManyRelatedEntitiesAtTime(from, 1, true)
+	h.Assert(err == nil, "first page")
+	cont := p1.Cont
+	// the dataset is deleted; optionally something else happens before the continuation is used
+	h.Assert(hs.hub.Dsm.DeleteDataset("a") == nil, "delete accepted")
+	g.deleteDS("a")
+	switch h.Choice("then", 4) {
+	case 1:
+		_, err := hs.hub.Dsm.CreateDataset("a", nil)
+		h.Assert(err == nil, "re-create accepted")
+		g.createDS("a")
+	case 2:
+		h.Assert(NewGarbageCollector(hs.hub.Store, hs.hub.Env).Cleandeleted() == nil, "gc succeeds")
+	case 3:
+		hs.hub = hs.hub.Restart()
+		st = hs.hub.Store
+	}
+	allowed := g.related(start, "*", inverse, []string{"b"})
+	for page := 0; len(cont) > 0 && page < 5; page++ {
+		next, err := st.GetManyRelatedEntitiesAtTime(cont, 1, true)
+		h.Assert(err == nil, "continuation accepted after the delete")
+		if err != nil {
+			break
+		}
+		for _, r := range vRelPairs(next.Relations) {
+			h.Assert(vIn(allowed, r), "a continued page returns nothing that was written to the deleted dataset :: relation="+r+" surviving="+vJoin(allowed))
+		}
+		for _, r := range next.Relations {
+			if r.RelatedEntity != nil && r.RelatedEntity.Properties["ns0:v"] == "a" {
+				h.Fail("a continued page returns an entity version of the deleted dataset")
+			}
+		}
+		cont = next.Cont
+	}
+	h.Observe("scope", len(scope))
+}
+
+func vIn(xs []string, x string) bool {
+	for _, y := range xs {
+		if y == x {
+			return true
+		}
+	}
+	return false
+}
